@@ -168,19 +168,20 @@ func readSizes(n int) (sizes []int) {
 
 // LimitReader ------------------------------------------------------------------
 
-// lrCall is the record of one Read call of the driver.
+// lrCall is the record of one Read call of the driver (small integers: an
+// execution record is reset for every one of ~10^9 executions).
 type lrCall struct {
-	size int
+	size int8
 
 	// The requests the wrapped reader saw during the call, and its answers.
-	nreq int
-	req  [3]int
-	k    [3]int
-	e    [3]int
+	nreq int8
+	req  [3]int8
+	k    [3]int8
+	e    [3]int8
 
 	done   bool
-	retK   int
-	retErr int
+	retK   int8
+	retErr int8
 }
 
 // lrRun is one execution: LimitReader(choosing reader over a stream of
@@ -229,7 +230,7 @@ func (x *lrRun) text() string {
 			fmt.Fprintf(&b, "=(%d,%s)", cl.retK, ecText[cl.retErr])
 		}
 
-		for j := 0; j < cl.nreq; j++ {
+		for j := 0; j < int(cl.nreq); j++ {
 			if cl.e[j] == ecNone {
 				fmt.Fprintf(&b, " {r.Read(len %d)}", cl.req[j])
 			} else {
@@ -287,10 +288,10 @@ func (x *lrRun) Read(p []byte) (n int, err error) {
 
 	cl := &x.log[x.nlog-1]
 	j := -1
-	if cl.nreq < len(cl.req) {
-		j = cl.nreq
+	if int(cl.nreq) < len(cl.req) {
+		j = int(cl.nreq)
 		cl.nreq++
-		cl.req[j] = len(p)
+		cl.req[j] = int8(min(len(p), 127))
 	}
 
 	x.calls++
@@ -327,16 +328,21 @@ func (x *lrRun) Read(p []byte) (n int, err error) {
 
 	x.lastErr = err
 	if j >= 0 {
-		cl.k[j], cl.e[j] = k, e
+		cl.k[j], cl.e[j] = int8(k), int8(e)
 	}
 
 	return k, err
 }
 
 // runLR executes up to maxReads Read calls on a fresh LimitReader(r, limit), r
-// holding streamLen distinct bytes.
-func runLR(c *runlib.Ctx, limit, streamLen int, sizes []int, ch chooser, maxReads int, report bool) (x *lrRun) {
-	x = &lrRun{c: c, ch: ch, report: report, limit: limit, stream: streamBytes[:streamLen]}
+// holding streamLen distinct bytes.  x is the execution record to (re)use; nil
+// allocates one.
+func runLR(x *lrRun, c *runlib.Ctx, limit, streamLen int, sizes []int, ch chooser, maxReads int, report bool) *lrRun {
+	if x == nil {
+		x = &lrRun{}
+	}
+
+	*x = lrRun{c: c, ch: ch, report: report, limit: limit, stream: streamBytes[:streamLen]}
 
 	pv, _ := runlib.Try(func() {
 		lr := ioutil.LimitReader(x, uint64(limit))
@@ -351,17 +357,18 @@ func runLR(c *runlib.Ctx, limit, streamLen int, sizes []int, ch chooser, maxRead
 				panic(explore.DivergenceError{At: x.nlog, Choice: -1})
 			}
 
-			x.log[x.nlog] = lrCall{size: size}
+			x.log[x.nlog] = lrCall{size: int8(size)}
 			x.nlog++
 			x.calls, x.got, x.lastErr = 0, 0, nil
 			k, err := lr.Read(p)
 			cl := &x.log[x.nlog-1]
-			cl.done, cl.retK, cl.retErr = true, k, classify(err, limit)
+			class := classify(err, limit)
+			cl.done, cl.retK, cl.retErr = true, int8(max(min(k, 127), -128)), int8(class)
 			if x.failed {
 				return
 			}
 
-			x.checkRead(p, k, err, cl.retErr)
+			x.checkRead(p, k, err, class)
 		}
 	})
 	rethrow(pv)
@@ -438,8 +445,9 @@ func dfsLR(c *runlib.Ctx, sh *enum.Sharder, limit, streamLen, maxReads int) {
 	fam := fmt.Sprintf("reader-all-sequences/n=%d", limit)
 	sizes := readSizes(limit)
 	n := 0
+	x := &lrRun{}
 	for depth := 1; depth <= maxReads; depth++ {
-		hs := heads(func(ch chooser) { runLR(c, limit, streamLen, sizes, ch, min(2, depth), false) })
+		hs := heads(func(ch chooser) { runLR(nil, c, limit, streamLen, sizes, ch, min(2, depth), false) })
 		for _, h := range hs {
 			if !sh.Mine() {
 				continue
@@ -447,7 +455,7 @@ func dfsLR(c *runlib.Ctx, sh *enum.Sharder, limit, streamLen, maxReads int) {
 
 			c.InFlight(fmt.Sprintf("LimitReader n=%d stream=%d reads=%d head=%v", limit, streamLen, depth, h))
 			st := explore.Run(0, func(ch *explore.Chooser) {
-				x := runLR(c, limit, streamLen, sizes, &headChooser{head: h, c: ch}, depth, true)
+				runLR(x, c, limit, streamLen, sizes, &headChooser{head: h, c: ch}, depth, true)
 				c.Eval()
 				c.Family(fam)
 				if x.nontrivial() {
@@ -480,7 +488,7 @@ func bfsLR(c *runlib.Ctx, limit, streamLen, dfsReads int) {
 	fam := fmt.Sprintf("reader-bfs/n=%d", limit)
 	sizes := readSizes(limit)
 	seen := map[[3]int]bool{}
-	root := runLR(c, limit, streamLen, sizes, explore.NewChooser(nil), 0, true)
+	root := runLR(nil, c, limit, streamLen, sizes, explore.NewChooser(nil), 0, true)
 	seen[root.key()] = true
 	frontier := [][]int{nil}
 	var transitions int64
@@ -491,7 +499,7 @@ func bfsLR(c *runlib.Ctx, limit, streamLen, dfsReads int) {
 		for _, nd := range frontier {
 			c.InFlight(fmt.Sprintf("LimitReader n=%d stream=%d search path %v", limit, streamLen, nd))
 			explore.Run(0, func(ch *explore.Chooser) {
-				x := runLR(c, limit, streamLen, sizes, &headChooser{head: nd, c: ch}, reads, true)
+				x := runLR(nil, c, limit, streamLen, sizes, &headChooser{head: nd, c: ch}, reads, true)
 				c.Eval()
 				c.Family(fam)
 				transitions++
@@ -783,7 +791,7 @@ func replay(c *runlib.Ctx, w witness) {
 	c.Family("replay")
 	switch w.Part {
 	case "reader":
-		runLR(c, w.Limit, w.Stream, readSizes(w.Limit), explore.NewChooser(w.Choices), w.Calls, true)
+		runLR(nil, c, w.Limit, w.Stream, readSizes(w.Limit), explore.NewChooser(w.Choices), w.Calls, true)
 	case "writer":
 		runTW(c, w.Limit, explore.NewChooser(w.Choices), w.Calls, true)
 	default:
@@ -793,8 +801,10 @@ func replay(c *runlib.Ctx, w witness) {
 
 func main() {
 	// The live heap is a few kilobytes and every execution allocates a fresh
-	// chooser: collect less often.
-	debug.SetGCPercent(1600)
+	// chooser: collect less often, but never let the heap goal run away (on a
+	// loaded machine the bytes allocated during a slow mark phase count as live).
+	debug.SetGCPercent(800)
+	debug.SetMemoryLimit(1 << 30)
 
 	runlib.Main(func(c *runlib.Ctx) {
 		if c.Replay != nil {
